@@ -132,6 +132,18 @@ def rand_data(rng, kind, n):
         vals = [rand_text(rng) for _ in range(n)]
         arr = np.array(vals, dtype=object) if n else np.empty(0, dtype=object)
         return DataSpec(arr, kind, vals, ('object', None) if n else ('any', None))
+    if kind == 'tsarray':
+        # a TimestampArray built by the caller (what raw_timestamps=True reads hand out), either field order
+        from nptdms.timestamp import TimestampArray
+        n = max(n, 1)
+        vals = np.array([rand_dt(rng) for _ in range(n)], dtype='M8[us]')
+        ticks = vals.astype('i8') - np.datetime64('1904-01-01T00:00:00', 'us').astype('i8')
+        secs = [int(t) // 10 ** 6 for t in ticks.tolist()]
+        fracs = [((int(t) % 10 ** 6) * 2 ** 64 + 10 ** 6 - 1) // 10 ** 6 + (4096 if int(t) % 10 ** 6 else 0) for t in ticks.tolist()]
+        names = rng.choice([('second_fractions', 'seconds'), ('seconds', 'second_fractions')])
+        a_ = np.zeros(n, dtype=[(nm, '<i8' if nm == 'seconds' else '<u8') for nm in names])
+        a_['seconds'], a_['second_fractions'] = secs, fracs
+        return DataSpec(TimestampArray(a_), kind, vals, ('exact', np.dtype('M8[us]')))
     if kind.startswith('dt64:'):
         unit = kind[5:]
         vals = np.array([rand_dt(rng) for _ in range(n)], dtype='M8[us]')
@@ -153,7 +165,7 @@ def rand_data(rng, kind, n):
 
 
 DATA_KINDS = (['np:' + d for d in NUM_DTYPES] * 2 + ['intlist:' + k for k in ('i8', 'u8', 'i16', 'u16', 'i32', 'u32', 'i64', 'u64')] +
-              ['floatlist', 'strlist', 'strarray', 'strarray', 'dt64:us', 'dt64:ms', 'dt64:s', 'dt64:ns', 'dt64:D', 'pydtlist'])
+              ['floatlist', 'strlist', 'strarray', 'strarray', 'dt64:us', 'dt64:ms', 'dt64:s', 'dt64:ns', 'dt64:D', 'pydtlist', 'tsarray'])
 
 
 class Program(object):
@@ -165,6 +177,8 @@ class Program(object):
         self.target = 'stream'      # 'stream' | 'path'
         self.reuse_objects = False  # one ChannelObject / GroupObject instance re-used with reassigned attributes
         self.precreate_empty = False  # path target: an empty file exists already and the first session appends to it
+        self.container = 'list'     # how the objects of a segment are handed over: list | tuple | generator | iter
+        self.mutate_after = False   # the caller empties its property dicts as soon as write_segment has returned
         self.fname = 'prog.tdms'    # path target: file name; the index file is documented to be <path>_index whatever the name
         self.source = None          # optional: channels of a file read with TdmsFile.read, passed on as TdmsGroup/TdmsChannel objects
 
@@ -179,7 +193,8 @@ class Program(object):
             out.append(so)
         src = None if self.source is None else [(n, t, len(v)) for n, t, v in self.source['channels']]
         return {'version': self.version, 'index': self.index, 'target': self.target, 'sessions': out, 'source_file_channels': src,
-                'reuse_objects': self.reuse_objects, 'precreate_empty': self.precreate_empty, 'file_name': self.fname}
+                'reuse_objects': self.reuse_objects, 'precreate_empty': self.precreate_empty, 'file_name': self.fname,
+                'container': self.container, 'mutate_after': self.mutate_after}
 
 
 def gen_program(rng, types_mod, max_sessions=3, max_segments=5, max_objects=5, lens=(0, 1, 2, 3, 7, 20, 50)):
@@ -193,6 +208,8 @@ def gen_program(rng, types_mod, max_sessions=3, max_segments=5, max_objects=5, l
         prog.source = gen_source(rng)
     prog.reuse_objects = rng.random() < 0.2
     prog.precreate_empty = prog.target == 'path' and rng.random() < 0.25
+    prog.container = rng.choice(['list', 'list', 'tuple', 'generator', 'iter'])
+    prog.mutate_after = rng.random() < 0.3
     prog.fname = rng.choice(['prog.tdms'] * 5 + ['PROG.TDMS', 'capture.dat', 'noextension', 'log.2024.tdms', 'a b.tdms', 'x.tdms.bak'])
     big_budget = [1] if rng.random() < 0.01 else []       # rarely: one array sized at a power-of-two byte boundary
     for _ in range(rng.randint(1, max_sessions)):
@@ -226,6 +243,8 @@ def gen_program(rng, types_mod, max_sessions=3, max_segments=5, max_objects=5, l
                     c = rng.choice(['c0', 'c1', rand_name(rng)])
                     kind = chan_kinds.setdefault((g, c), rng.choice(DATA_KINDS))
                     n_ = rng.choice(lens)
+                    if rng.random() < 0.03:
+                        n_ = rng.choice([1024, 2000, 5000])      # more than one I/O buffer (8 KiB) of raw data
                     if big_budget and kind.startswith('np:') and kind[3:] != '?':
                         big_budget.pop()
                         n_ = (2 ** 20) // np.dtype(kind[3:]).itemsize * rng.choice([1, 1, 2]) + rng.choice([0, 0, 1])
@@ -370,7 +389,12 @@ def run_program(prog, nptdms, tmpdir, stream_factory=io.BytesIO):
                             co = held['c']
                             co.group, co.channel, co.properties = o['group'], o['channel'], props
                             # the data attribute is normalised by the constructor: take it from a throw-away object
-                            co.data = nptdms.ChannelObject('x', 'y', o['data'].data).data
+                            fresh = nptdms.ChannelObject('x', 'y', o['data'].data).data
+                            if (isinstance(co.data, np.ndarray) and co.data.dtype == object and isinstance(fresh, np.ndarray) and fresh.dtype == object
+                                    and len(fresh) == len(co.data) and co.data.flags.writeable):
+                                co.data[:] = fresh           # the caller refills its own array in place
+                            else:
+                                co.data = fresh
                             objs.append(co)
                         else:
                             held['c'] = nptdms.ChannelObject(o['group'], o['channel'], o['data'].data, props)
@@ -379,8 +403,19 @@ def run_program(prog, nptdms, tmpdir, stream_factory=io.BytesIO):
                     before = (stream.tell(), istream.tell() if istream is not None else None)
                 else:
                     before = (w._file.tell(), w._index_file.tell() if w._index_file is not None else None)
+                inputs = [(o['data'].kind, o['data'].data, o['data'].data.tobytes(), o['data'].data.dtype.str) for o in seg
+                          if o.get('data') is not None and isinstance(o['data'].data, np.ndarray) and o['data'].data.dtype != object]
+                handed = {'list': lambda x: x, 'tuple': tuple, 'generator': lambda x: (y for y in x), 'iter': iter}[getattr(prog, 'container', 'list')](objs)
                 try:
-                    w.write_segment(objs)
+                    w.write_segment(handed)
+                    for kind_, arr_, before_, dts_ in inputs:
+                        if arr_.tobytes() != before_ or arr_.dtype.str != dts_:
+                            log.append((si, gi, 'input-array-modified:' + kind_))
+                    if getattr(prog, 'mutate_after', False):
+                        for ob_ in objs:
+                            pr_ = getattr(ob_, 'properties', None)
+                            if isinstance(pr_, dict) and not type(ob_).__module__.startswith('nptdms.tdms'):
+                                pr_.clear()
                 except Exception as ex:
                     log.append((si, gi, 'refused:' + type(ex).__name__))
                     # a refused call must not leave partial bytes behind for the next accepted call to build on
